@@ -14,6 +14,7 @@ func init() { registry["C11"] = runC11 }
 
 func runC11(c *Ctx) {
 	rep := c.Rep
+	defer runFirstOps(c) // fresh child processes whose first gmsm call is one operation of this property
 	rep.Meta("cases: every plaintext length 0..1024 x {ECB,CBC,CFB,OFB} x the tier's (key,IV) list (first group uses the package's default zero IV, later groups an IV set through SetIV); inputs live in canary arrays with spare capacity drawn from {0,1,15,16,64}; plaintext tails that look like padding are forced. Oracle: stdlib mode over reference SM4 of the PKCS#7-padded plaintext, length rule, decrypt inverse, caller memory untouched (input, key, IV, spare capacity, guard zones). Distinct non-trivial = distinct (mode, length, group, spare) tuples with length>0.",
 		4000, []string{"ref SM4 + crypto/cipher CBC/CFB/OFB", "ref PKCS#7 pad"},
 		[]string{"SetIV is process-global: groups run one after another, all calls inside a group only read the IV"})
